@@ -83,10 +83,29 @@ var overwriteCmds = map[string]bool{"set": true, "setex": true, "getset": true, 
 
 var expireCmds = map[string]bool{"expire": true, "hexpire": true, "lexpire": true, "sexpire": true, "zexpire": true}
 
+// genCollision: the command re-created a collection at exactly the log
+// timestamp at which an earlier generation of it had been created. The stored
+// generation number IS that timestamp, so the two generations share their
+// element keys; every symptom of it (old members back, "should not override"
+// list errors) gets one signature.
+func (r *runner) genCollision(o Op) string {
+	typ := typeOf(o.Name)
+	if typ == "kv" || !IsWrite(o.Name) || r.cfg.Policy == PolicyLocal {
+		return ""
+	}
+	if r.m.GenCollision(typ, o.tk(), o.Ts) {
+		return "predecessor-members-visible/" + typ + "/same-ns"
+	}
+	return ""
+}
+
 // classifyC10Reply signs a reply disagreement of command o.
 func (r *runner) classifyC10Reply(at int, o Op, e Exp, g Reply) string {
 	if !r.cfg.C10 {
 		return ""
+	}
+	if s := r.genCollision(o); s != "" {
+		return s
 	}
 	cmd := strings.ToUpper(o.Name)
 	if e.TTL || strings.HasSuffix(o.Name, "ttl") {
@@ -134,6 +153,11 @@ func (r *runner) classifyC10(at int, tk touchKey, ro Op, e Exp, g Reply) string 
 		return ""
 	}
 	o := r.ops[at]
+	if !o.IsCtl() {
+		if s := r.genCollision(o); s != "" {
+			return s
+		}
+	}
 	// members of an earlier generation that the current one does not have
 	if tk.typ != "kv" && g.Kind == "array" {
 		cur := map[string]bool{}
@@ -223,6 +247,26 @@ func (r *runner) ctl(at int, o Op) *Failure {
 			return nil
 		}
 		before := time.Now().Unix()
+		if r.cfg.Engine == "mem" {
+			// The checker keeps one open write batch per data type
+			// (newLocalBatchedBuffer); a mem-engine write batch holds the store's
+			// exclusive write transaction from its first Delete on, so a pass with
+			// due records of two types blocks itself forever on this engine (the
+			// real background goroutine would too). Run the pass on mem only when
+			// at most one type is due.
+			types := map[string]bool{}
+			for key, recs := range r.m.recs {
+				for _, w := range recs {
+					if w <= before+1 {
+						types[key[:strings.IndexByte(key, '|')]] = true
+					}
+				}
+			}
+			if len(types) > 1 {
+				r.st.CtlOps["ttlcheck_skipped_on_mem_two_types_due"]++
+				return nil
+			}
+		}
 		n, err := r.lab.DB().VerifTTLCheckOnce()
 		after := time.Now().Unix()
 		if err != nil {
